@@ -541,6 +541,21 @@ func smbC04Case(c *h.Ctx, mk func() command_interface.CommandInterface, k *smbCa
 		return nil
 	}
 	smbCompareFields(c, y, k, site, "roundtrip", false)
+	// the same encoding decoded from a buffer that held the previous encoding of this length (a reused receive buffer)
+	if len(b1) <= 8192 {
+		c.ReusedInput(site, b1, func(in []byte) (r string) {
+			w := mk()
+			w.Init()
+			var e error
+			if pp := h.Guard(func() { _, e = w.Unmarshal(in) }); pp != "" || e != nil {
+				return fmt.Sprintf("error %v %s", e, pp)
+			}
+			w.SetParameters(parameters.NewParameters())
+			w.SetData(data.NewData())
+			out, e2, pp := smbMarshalInMessage(w)
+			return fmt.Sprintf("%s %v %s", smbHex(out), e2, pp)
+		}, k.sample())
+	}
 	b2, merr2, p := smbMarshalInMessage(y)
 	c.Exec(1)
 	if p != "" || merr2 != nil {
